@@ -245,6 +245,15 @@ def main():
             if broken_theorems: proof_ok = False
     if not proof_ok:
         raise Broken('the Coq development does not check (it does not depend on /repo): ' + ' | '.join(broken_theorems)[:1500])
+    coqchk_report = None
+    if tier == 'thorough':
+        # independent re-check of the property's compiled file and everything it depends on
+        rc, cout = sh(f'timeout 2400 coqchk -o -silent -Q {COQ}/theories Cobweb -Q {COQ}/proofs CobwebProofs -Q {COQ}/properties CobwebProps CobwebProps.{cid}', cwd=COQ, timeout=2500)
+        m = re.search(r'\* Axioms:\s*(.*?)\n\s*\n', cout + '\n\n', re.S)
+        coqchk_report = m.group(1).strip() if m else 'unparsed'
+        if rc != 0 or coqchk_report != '<none>':
+            raise Broken('coqchk does not accept the development or reports axioms: ' + cout[-800:])
+        assum_report['__coqchk__'] = ['coqchk -o: Axioms: ' + coqchk_report]
 
     # ---- 3. builds against /repo
     rc, hout = build_harness()
